@@ -1,7 +1,1577 @@
-//! C05 — stub (not built yet).
+//! C05 — built objects decode back to themselves and look the same either way.
+//!
+//! Every builder of the library (certificates, CRLs, manifests, ROAs, ASPAs,
+//! CSRs, identity certificates, signed protocol messages) is fed with
+//! profile-conforming generated input. Oracle per object: the DER decodes and
+//! validates, re-encoding the decoded twin reproduces the bytes (outer object,
+//! to-be-signed part, inner content), an accessor snapshot (every public
+//! accessor / iterator rendered to text, each under `no_panic`) is identical
+//! for the built value and its decoded twin, and no builder panics.
 
 use crate::engine::*;
+use crate::gen::{dense_u128, dense_u32, U128};
+use crate::keys::{self, PoolSigner, POOL_SIZE};
+use bcder::encode::Values;
+use bcder::Mode;
+use bytes::Bytes;
+use chrono::{TimeZone, Utc};
+use proptest::prelude::*;
+use rpki::ca::csr::{BgpsecCsr, Csr, RpkiCaCsr};
+use rpki::ca::idcert::IdCert;
+use rpki::ca::sigmsg::SignedMessage;
+use rpki::crypto::{DigestAlgorithm, PublicKey};
+use rpki::repository::aspa::{Aspa, AspaBuilder};
+use rpki::repository::cert::{Cert, ExtendedKeyUsage, KeyUsage, Overclaim, ResourceCert, TbsCert};
+use rpki::repository::crl::{Crl, CrlEntry, TbsCertList};
+use rpki::repository::manifest::{FileAndHash, Manifest, ManifestContent};
+use rpki::repository::resources::{Addr, AsBlock, AsResources, Asn, IpBlock, IpResources};
+use rpki::repository::roa::{Roa, RoaBuilder};
+use rpki::repository::sigobj::{SignedObject, SignedObjectBuilder};
+use rpki::repository::tal::TalInfo;
+use rpki::repository::x509::{Name, Serial, Time, Validity};
+use rpki::uri;
+use serde::{Deserialize, Serialize};
+use std::net::{Ipv4Addr, Ipv6Addr};
+use std::sync::OnceLock;
+
+pub const RULE: &str = "one sub-check per builder, random profile-conforming inputs: serials of 1..20 octets (sign bit clear, \
+leading zeros, 0x80 boundaries), names (from key / other key / custom PrintableString CN + serialNumber), whole-second \
+times in years 1..9999 dense at the UTCTime/GeneralizedTime switch 1950/2050, rsync/https URIs with and without trailing \
+slash and beyond 127 octets, resource block lists in any order with overlaps and adjacency (all families, inherit, \
+missing), 0..300 revocation entries unsorted with duplicates, 0..40 manifest files, ROA prefixes with max-length in \
+[len, family max] in any order, 1..16380 distinct providers in any order without the customer, CSR SIA triples, IdCert \
+TA/EE, signed messages with 0..3000 arbitrary content octets. Oracle: decode(encode(built)) succeeds and validates under \
+its issuer (validate_*_at at a time inside the window; Roa/Aspa::process only for windows wide around now), \
+encode(decoded) == encode(built), to-be-signed encode_ref of the decoded twin == the signed bytes, inner content \
+encode_ref of the decoded twin == eContent, accessor snapshot (each accessor under no_panic) identical for both, no \
+builder panic. Non-trivial = object with >= 2 list entries (blocks / prefixes / files / revoked / providers) or >= 2 \
+resource families; for the list-less kinds: CSR with rpkiNotify or a repository URI without trailing slash, IdCert EE, \
+signed message with >= 128 content octets.";
+
+//------------ generic helpers ---------------------------------------------------------
+
+const LOW96: u128 = (1u128 << 96) - 1;
+const YEAR1: i64 = -62_135_596_800;
+const YEAR9999_END: i64 = 253_402_300_799;
+
+fn hex(b: &[u8]) -> String {
+    b.iter().map(|x| format!("{:02x}", x)).collect()
+}
+
+fn time_s(secs: i64) -> Result<Time, Fail> {
+    Utc.timestamp_opt(secs, 0)
+        .single()
+        .map(Time::new)
+        .ok_or_else(|| Fail::new(format!("generator: time {} s out of range", secs)))
+}
+
+fn show_time(t: Time) -> String {
+    format!("{}.{:09}", t.timestamp(), t.timestamp_subsec_nanos())
+}
+
+fn serial_of(bytes: &[u8]) -> Result<Serial, Fail> {
+    Serial::from_slice(bytes).map_err(|e| Fail::new(format!("generator: bad serial {:?}: {}", bytes, e)))
+}
+
+fn rsync(s: &str) -> Result<uri::Rsync, Fail> {
+    uri::Rsync::from_string(s.to_string()).map_err(|e| Fail::new(format!("generator: bad rsync URI {:?}: {}", s, e)))
+}
+
+fn https(s: &str) -> Result<uri::Https, Fail> {
+    uri::Https::from_string(s.to_string()).map_err(|e| Fail::new(format!("generator: bad https URI {:?}: {}", s, e)))
+}
+
+/// (tag, content start, content end) of the TLV at `pos` (definite lengths).
+fn tlv(buf: &[u8], pos: usize) -> Option<(u8, usize, usize)> {
+    let tag = *buf.get(pos)?;
+    let l0 = *buf.get(pos + 1)? as usize;
+    let (len, hdr) = if l0 < 0x80 {
+        (l0, 2)
+    } else {
+        let n = l0 & 0x7f;
+        if n == 0 || n > 4 {
+            return None;
+        }
+        let mut l = 0usize;
+        for k in 0..n {
+            l = (l << 8) | *buf.get(pos + 2 + k)? as usize;
+        }
+        (l, 2 + n)
+    };
+    let start = pos + hdr;
+    let end = start.checked_add(len)?;
+    (end <= buf.len()).then_some((tag, start, end))
+}
+
+/// The first element (with its header) of the outer SEQUENCE: the signed part
+/// of a certificate, CRL, CSR.
+fn signed_part(der: &[u8]) -> Result<&[u8], Fail> {
+    let bad = || Fail::new("harness: cannot locate the signed part");
+    let (t, s, _) = tlv(der, 0).ok_or_else(bad)?;
+    ensure!(t == 0x30, "harness: outer value is not a SEQUENCE");
+    let (_, _, e) = tlv(der, s).ok_or_else(bad)?;
+    Ok(&der[s..e])
+}
+
+fn der_len(n: usize) -> Vec<u8> {
+    if n < 128 {
+        vec![n as u8]
+    } else if n < 256 {
+        vec![0x81, n as u8]
+    } else {
+        vec![0x82, (n >> 8) as u8, n as u8]
+    }
+}
+
+fn der_tlv(tag: u8, content: &[u8]) -> Vec<u8> {
+    let mut v = vec![tag];
+    v.extend(der_len(content.len()));
+    v.extend_from_slice(content);
+    v
+}
+
+fn captured<V: Values>(v: V) -> Vec<u8> {
+    v.to_captured(Mode::Der).into_bytes().to_vec()
+}
+
+/// An accessor snapshot: (accessor name, rendered value).
+type Snap = Vec<(String, String)>;
+
+macro_rules! field {
+    ($snap:expr, $who:expr, $name:expr, $e:expr) => {
+        $snap.push(($name.to_string(), no_panic(&format!("{} twin: {}", $who, $name), || format!("{:?}", $e))?))
+    };
+}
+
+fn compare_snaps(kind: &str, built: &Snap, decoded: &Snap) -> CheckResult {
+    for (b, d) in built.iter().zip(decoded.iter()) {
+        ensure!(b.0 == d.0, "harness: snapshot layout differs ({} / {})", b.0, d.0);
+        if b.1 != d.1 {
+            let cut = |s: &str| if s.len() > 600 { format!("{}…", &s[..s.char_indices().take_while(|x| x.0 < 600).last().map(|x| x.0).unwrap_or(0)]) } else { s.to_string() };
+            return Err(Fail::sig(
+                format!("c05:{}:twin:{}", kind, b.0),
+                format!("{}: accessor {} differs: built = {} / decoded = {}", kind, b.0, cut(&b.1), cut(&d.1)),
+            ));
+        }
+    }
+    ensure!(built.len() == decoded.len(), "harness: snapshot lengths differ");
+    Ok(())
+}
+
+fn ensure_bytes(kind: &str, what: &str, got: &[u8], want: &[u8]) -> CheckResult {
+    if got != want {
+        let pos = got.iter().zip(want.iter()).position(|(a, b)| a != b).unwrap_or(got.len().min(want.len()));
+        return Err(Fail::sig(
+            format!("c05:{}:{}", kind, what),
+            format!(
+                "{}: {}: {} octets instead of {}, first difference at offset {}: got …{} / want …{}",
+                kind,
+                what,
+                got.len(),
+                want.len(),
+                pos,
+                hex(&got[pos.min(got.len())..(pos + 12).min(got.len())]),
+                hex(&want[pos.min(want.len())..(pos + 12).min(want.len())])
+            ),
+        ));
+    }
+    Ok(())
+}
+
+//------------ shared input specs and strategies ---------------------------------------
+
+#[derive(Clone, Debug, PartialEq, Serialize, Deserialize)]
+pub enum NameSpec {
+    /// what the builder derives itself
+    Default,
+    /// derived from pool key
+    FromKey(u8),
+    /// commonName (+ serialNumber) as PrintableString
+    Custom { cn: String, sn: Option<String> },
+}
+
+fn make_name(spec: &NameSpec) -> Result<Option<Name>, Fail> {
+    Ok(match spec {
+        NameSpec::Default => None,
+        NameSpec::FromKey(k) => Some(PoolSigner::new().info(*k as usize).to_subject_name()),
+        NameSpec::Custom { cn, sn } => {
+            let rdn = |oid_last: u8, s: &str| {
+                der_tlv(0x31, &der_tlv(0x30, &[der_tlv(0x06, &[0x55, 0x04, oid_last]), der_tlv(0x13, s.as_bytes())].concat()))
+            };
+            let mut body = rdn(3, cn);
+            if let Some(sn) = sn {
+                body.extend(rdn(5, sn));
+            }
+            let der = der_tlv(0x30, &body);
+            Some(
+                Mode::Der
+                    .decode(der.as_slice(), Name::take_from)
+                    .map_err(|e| Fail::new(format!("generator: custom name does not decode: {}", e)))?,
+            )
+        }
+    })
+}
+
+fn name_strategy() -> BoxedStrategy<NameSpec> {
+    prop_oneof![
+        3 => Just(NameSpec::Default),
+        2 => (0u8..8).prop_map(NameSpec::FromKey),
+        2 => ("[A-Za-z0-9 '()+,./:=?-]{1,40}", prop::option::of("[A-Za-z0-9]{1,20}")).prop_map(|(cn, sn)| NameSpec::Custom { cn, sn }),
+        1 => "[A-Za-z0-9 ]{120,200}".prop_map(|cn| NameSpec::Custom { cn, sn: None }),
+    ]
+    .boxed()
+}
+
+/// 1..=20 octets with the sign bit clear.
+fn serial_strategy() -> BoxedStrategy<Vec<u8>> {
+    let edge = prop::sample::select(vec![0u8, 1, 0x7f, 0x80, 0x81, 0xff]);
+    prop_oneof![
+        3 => (1usize..=20, edge.clone(), edge.clone(), any::<u8>()).prop_map(|(len, a, b, fill)| {
+            let mut v = vec![fill; len];
+            v[0] = a & 0x7f;
+            if len > 1 { v[1] = b; }
+            v
+        }),
+        2 => prop::collection::vec(any::<u8>(), 1..=20).prop_map(|mut v| { v[0] &= 0x7f; v }),
+        1 => (1usize..=20).prop_map(|len| vec![0u8; len]),
+        1 => (0usize..=19, edge).prop_map(|(zeros, b)| { let mut v = vec![0u8; zeros]; v.push(b); if v.len() == 20 { v[0] &= 0x7f; } v }),
+        1 => Just({ let mut v = vec![0xffu8; 20]; v[0] = 0x7f; v }),
+    ]
+    .boxed()
+}
+
+/// Whole seconds within years 1..=9999.
+fn time_strategy() -> BoxedStrategy<i64> {
+    const EDGES: [i64; 14] = [
+        YEAR1,
+        YEAR9999_END,
+        -631_152_000,  // 1950-01-01T00:00:00
+        -631_152_001,  // 1949-12-31T23:59:59
+        2_524_607_999, // 2049-12-31T23:59:59
+        2_524_608_000, // 2050-01-01T00:00:00
+        946_684_800,   // 2000-01-01
+        946_684_799,
+        951_782_400,   // 2000-02-29
+        0,
+        -1,
+        1_767_225_600,               // 2026-01-01
+        -62_135_596_800 + 31_536_000 * 998, // year ~999
+        32_503_680_000,              // 3000-01-01
+    ];
+    prop_oneof![
+        3 => (prop::sample::select(EDGES.to_vec()), -2i64..=2).prop_map(|(e, d)| (e + d).clamp(YEAR1, YEAR9999_END)),
+        3 => -700_000_000i64..2_600_000_000,
+        2 => 900_000_000i64..2_000_000_000,
+        1 => YEAR1..=YEAR9999_END,
+    ]
+    .boxed()
+}
+
+#[derive(Clone, Copy, Debug, Serialize, Deserialize)]
+pub struct Window {
+    pub nb: i64,
+    pub na: i64,
+    /// selects the evaluation time inside [nb, na]
+    pub at: u32,
+}
+
+impl Window {
+    fn validity(self) -> Result<Validity, Fail> {
+        Ok(Validity::new(time_s(self.nb)?, time_s(self.na)?))
+    }
+    fn eval(self) -> Result<Time, Fail> {
+        let span = (self.na - self.nb) as u64;
+        let off = match self.at % 4 {
+            0 => 0,
+            1 => span,
+            _ => (self.at as u64).wrapping_mul(0x9E37_79B9) % (span + 1),
+        };
+        time_s(self.nb + off as i64)
+    }
+    /// wide around any plausible "now" (for entry points that read the clock)
+    fn wide(self) -> bool {
+        self.nb <= 946_684_800 && self.na >= 7_258_118_400
+    }
+}
+
+fn window_strategy() -> BoxedStrategy<Window> {
+    prop_oneof![
+        4 => (time_strategy(), time_strategy(), any::<u32>()).prop_map(|(a, b, at)| Window { nb: a.min(b), na: a.max(b), at }),
+        1 => (time_strategy(), any::<u32>()).prop_map(|(a, at)| Window { nb: a, na: a, at }),
+        3 => (YEAR1..=946_684_800i64, 7_258_118_400i64..=YEAR9999_END, any::<u32>()).prop_map(|(nb, na, at)| Window { nb, na, at }),
+    ]
+    .boxed()
+}
+
+const SEG: &str = "[A-Za-z0-9._~!$&'()*+,;=:%-]{1,12}";
+
+fn segments() -> BoxedStrategy<Vec<String>> {
+    prop_oneof![
+        6 => prop::collection::vec(SEG, 0..4),
+        1 => ("[A-Za-z0-9]{130,300}", prop::collection::vec(SEG, 0..2)).prop_map(|(long, mut v)| { v.push(long); v }),
+    ]
+    .prop_map(|v| v.into_iter().filter(|s| s != "." && s != "..").collect())
+    .boxed()
+}
+
+/// rsync URI text; `dir`: trailing slash.
+fn rsync_strategy(dir: Option<bool>) -> BoxedStrategy<String> {
+    let auth = prop::sample::select(vec!["example.com", "localhost:4404", "rpki.example.net", "192.0.2.1:873", "a", "RPKI.Example.ORG"]);
+    let scheme = prop_oneof![9 => Just("rsync://"), 1 => Just("RSYNC://"), 1 => Just("rSync://")];
+    let dir = match dir {
+        Some(d) => Just(d).boxed(),
+        None => any::<bool>().boxed(),
+    };
+    (scheme, auth, "[a-zA-Z0-9_-]{1,8}", segments(), dir)
+        .prop_map(|(scheme, auth, module, segs, dir)| {
+            let mut s = format!("{}{}/{}/", scheme, auth, module);
+            s.push_str(&segs.join("/"));
+            if dir && !segs.is_empty() {
+                s.push('/');
+            }
+            s
+        })
+        .boxed()
+}
+
+fn https_strategy() -> BoxedStrategy<String> {
+    let auth = prop::sample::select(vec!["example.com", "localhost:8443", "rrdp.example.net"]);
+    (auth, segments(), any::<bool>())
+        .prop_map(|(auth, segs, slash)| {
+            let mut s = format!("https://{}/", auth);
+            s.push_str(&segs.join("/"));
+            if slash && !segs.is_empty() {
+                s.push('/');
+            }
+            s
+        })
+        .boxed()
+}
+
+#[derive(Clone, Debug, PartialEq, Serialize, Deserialize)]
+pub enum ResSpec {
+    Missing,
+    Inherit,
+    /// closed ranges (lo <= hi) in any order, overlaps and adjacency allowed;
+    /// IPv4 and AS in a 32-bit space
+    Blocks(Vec<(U128, U128)>),
+}
+
+impl ResSpec {
+    fn entries(&self) -> usize {
+        match self {
+            ResSpec::Blocks(v) => v.len(),
+            _ => 0,
+        }
+    }
+    fn present(&self) -> bool {
+        !matches!(self, ResSpec::Missing) && !matches!(self, ResSpec::Blocks(v) if v.is_empty())
+    }
+}
+
+fn blocks_strategy(bits32: bool) -> BoxedStrategy<Vec<(U128, U128)>> {
+    let d = if bits32 { dense_u32().prop_map(|x| x as u128).boxed() } else { dense_u128() };
+    let max = if bits32 { u32::MAX as u128 } else { u128::MAX };
+    let one = (d.clone(), d, 0u8..8, any::<u16>()).prop_map(move |(a, b, shape, r)| {
+        let (lo, hi) = (a.min(b), a.max(b));
+        match shape {
+            0 => (lo, lo),
+            1 => (lo, lo.saturating_add(r as u128).min(max)),
+            2 => {
+                // a prefix-shaped block
+                let bits = if max == u128::MAX { 128 } else { 32 };
+                let host = (r as u32) % (bits + 1);
+                let mask = if host == 0 { 0 } else if host == 128 { u128::MAX } else { (1u128 << host) - 1 };
+                ((lo & !mask) & max, ((lo & !mask) | mask) & max)
+            }
+            _ => (lo, hi),
+        }
+    });
+    prop_oneof![
+        5 => prop::collection::vec(one.clone(), 1..6),
+        1 => prop::collection::vec(one.clone(), 6..14),
+        // neighbours / nested / covering blocks appended after the first ones
+        3 => (prop::collection::vec(one, 1..4), any::<u64>()).prop_map(move |(mut v, r)| {
+            let (lo, hi) = v[(r % v.len() as u64) as usize];
+            match (r >> 8) % 5 {
+                0 if hi < max => v.push((hi + 1, (hi + 1).saturating_add((r >> 16) as u128 & 0xff).min(max))),
+                1 if lo > 0 => v.push((lo.saturating_sub(1 + ((r >> 16) as u128 & 0xff)), lo - 1)),
+                2 => v.push((lo, hi)),
+                3 => {
+                    let all_lo = v.iter().map(|x| x.0).min().unwrap();
+                    let all_hi = v.iter().map(|x| x.1).max().unwrap();
+                    v.push((all_lo, all_hi));
+                }
+                _ => v.push((lo + (hi - lo) / 2, hi)),
+            }
+            if (r >> 40) % 2 == 0 { v.reverse(); }
+            v
+        }),
+    ]
+    .prop_map(|v| v.into_iter().map(|(a, b)| (U128(a), U128(b))).collect())
+    .boxed()
+}
+
+fn res_strategy(bits32: bool, inherit: bool) -> BoxedStrategy<ResSpec> {
+    prop_oneof![
+        2 => Just(ResSpec::Missing),
+        if inherit { 2 } else { 0 } => Just(ResSpec::Inherit),
+        6 => blocks_strategy(bits32).prop_map(ResSpec::Blocks),
+    ]
+    .boxed()
+}
+
+fn ip_blocks(spec: &ResSpec, v4: bool) -> Vec<IpBlock> {
+    let ResSpec::Blocks(v) = spec else { return Vec::new() };
+    v.iter()
+        .map(|&(a, b)| {
+            let (lo, hi) = if v4 { (a.0 << 96, (b.0 << 96) | LOW96) } else { (a.0, b.0) };
+            IpBlock::from((Addr::from_bits(lo), Addr::from_bits(hi)))
+        })
+        .collect()
+}
+
+fn as_blocks(spec: &ResSpec) -> Vec<AsBlock> {
+    let ResSpec::Blocks(v) = spec else { return Vec::new() };
+    v.iter()
+        .map(|&(a, b)| {
+            let (lo, hi) = (Asn::from_u32(a.0 as u32), Asn::from_u32(b.0 as u32));
+            if lo == hi {
+                AsBlock::Id(lo)
+            } else {
+                AsBlock::from((lo, hi))
+            }
+        })
+        .collect()
+}
+
+/// Number of ASNs in the union of the blocks.
+fn as_count(spec: &ResSpec) -> u128 {
+    let ResSpec::Blocks(v) = spec else { return 0 };
+    let mut v: Vec<(u128, u128)> = v.iter().map(|x| (x.0 .0, x.1 .0)).collect();
+    v.sort();
+    let mut total = 0u128;
+    let mut end: Option<u128> = None;
+    for (a, b) in v {
+        let from = match end {
+            Some(e) if a <= e => e + 1,
+            _ => a,
+        };
+        if b >= from {
+            total += b - from + 1;
+            end = Some(b);
+        }
+    }
+    total
+}
+
+//------------ issuer certificates (cached) --------------------------------------------
+
+const ISSUER_NB: i64 = YEAR1;
+const ISSUER_NA: i64 = YEAR9999_END;
+
+/// A trust anchor holding all resources, one per pool key.
+fn issuer(key: usize) -> Result<ResourceCert, Fail> {
+    static CACHE: OnceLock<Vec<Result<ResourceCert, String>>> = OnceLock::new();
+    let all = CACHE.get_or_init(|| {
+        (0..POOL_SIZE)
+            .map(|k| -> Result<ResourceCert, String> {
+                let signer = PoolSigner::new();
+                let pk = signer.info(k);
+                let val = Validity::new(
+                    Time::new(Utc.timestamp_opt(ISSUER_NB, 0).single().ok_or("time")?),
+                    Time::new(Utc.timestamp_opt(ISSUER_NA, 0).single().ok_or("time")?),
+                );
+                let mut tbs = TbsCert::new(1u64.into(), pk.to_subject_name(), val, None, pk, KeyUsage::Ca, Overclaim::Refuse);
+                tbs.set_basic_ca(Some(true));
+                let u = uri::Rsync::from_string("rsync://example.net/ta/".into()).map_err(|e| e.to_string())?;
+                tbs.set_ca_repository(Some(u.clone()));
+                tbs.set_rpki_manifest(Some(u.join(b"ta.mft").map_err(|e| e.to_string())?));
+                tbs.set_v4_resources(IpResources::blocks(rpki::repository::resources::IpBlocks::all()));
+                tbs.set_v6_resources(IpResources::blocks(rpki::repository::resources::IpBlocks::all()));
+                tbs.set_as_resources(AsResources::blocks(rpki::repository::resources::AsBlocks::all()));
+                let cert = tbs.into_cert(&signer, &signer.key(k)).map_err(|e| e.to_string())?;
+                let der = cert.to_captured();
+                Cert::decode(der.as_slice())
+                    .map_err(|e| e.to_string())?
+                    .validate_ta_at(
+                        TalInfo::from_name("c05".into()).into_arc(),
+                        true,
+                        Time::new(Utc.timestamp_opt(1_767_225_600, 0).single().ok_or("time")?),
+                    )
+                    .map_err(|e| e.to_string())
+            })
+            .collect()
+    });
+    all[key % POOL_SIZE].clone().map_err(|e| Fail::new(format!("harness: cannot build the issuer trust anchor: {}", e)))
+}
+
+//------------ accessor snapshots shared by several kinds ------------------------------
+
+fn snap_key(s: &mut Snap, who: &str, prefix: &str, k: &PublicKey) -> CheckResult {
+    field!(s, who, format!("{}.algorithm", prefix), k.algorithm());
+    field!(s, who, format!("{}.bits", prefix), hex(&keys::sha256(k.bits())));
+    field!(s, who, format!("{}.bits_bytes", prefix), hex(&keys::sha256(k.bits_bytes().as_ref())));
+    field!(s, who, format!("{}.key_identifier", prefix), k.key_identifier());
+    field!(s, who, format!("{}.allow_rpki_cert", prefix), k.allow_rpki_cert());
+    field!(s, who, format!("{}.allow_router_cert", prefix), k.allow_router_cert());
+    field!(s, who, format!("{}.to_info_bytes", prefix), hex(&keys::sha256(k.to_info_bytes().as_ref())));
+    Ok(())
+}
+
+fn snap_ip(s: &mut Snap, who: &str, name: &str, r: &IpResources, v4: bool) -> CheckResult {
+    field!(s, who, format!("{}.is_inherited", name), r.is_inherited());
+    field!(s, who, format!("{}.is_present", name), r.is_present());
+    field!(s, who, format!("{}.to_blocks", name), r.to_blocks().map(|b| {
+        (
+            b.is_empty(),
+            b.iter().map(|x| format!("{:x}-{:x}{}", x.min().to_bits(), x.max().to_bits(), if x.is_slash_zero() { "/0" } else { "" })).collect::<Vec<_>>(),
+            if v4 { b.as_v4().to_string() } else { b.as_v6().to_string() },
+        )
+    }).map_err(|e| e.to_string()));
+    field!(s, who, format!("{}.encoded", name), hex(&captured(r.encode_ref())));
+    Ok(())
+}
+
+fn snap_as(s: &mut Snap, who: &str, name: &str, r: &AsResources, countable: bool) -> CheckResult {
+    field!(s, who, format!("{}.is_inherited", name), r.is_inherited());
+    field!(s, who, format!("{}.is_present", name), r.is_present());
+    field!(s, who, format!("{}.display", name), r.to_string());
+    field!(s, who, format!("{}.to_blocks", name), r.to_blocks().map(|b| {
+        (
+            b.is_empty(),
+            b.iter().map(|x| (x.min().into_u32(), x.max().into_u32(), x.is_whole_range())).collect::<Vec<_>>(),
+            b.iter_asns().take(5).collect::<Vec<_>>(),
+            // asn_count of all 2^32 ASNs does not fit its u32 (finding F6, owned by C03/C04)
+            if countable { Some(b.asn_count()) } else { None },
+        )
+    }).map_err(|e| e.to_string()));
+    field!(s, who, format!("{}.encoded", name), hex(&captured(r.encode_ref())));
+    Ok(())
+}
+
+/// Every public accessor of a certificate.
+fn snap_cert(s: &mut Snap, who: &str, p: &str, c: &TbsCert, as_countable: bool) -> CheckResult {
+    field!(s, who, format!("{}serial_number", p), (c.serial_number(), hex(&c.serial_number().into_array())));
+    field!(s, who, format!("{}issuer", p), hex(&captured(c.issuer().encode_ref())));
+    field!(s, who, format!("{}subject", p), hex(&captured(c.subject().encode_ref())));
+    field!(s, who, format!("{}validity", p), (show_time(c.validity().not_before()), show_time(c.validity().not_after())));
+    snap_key(s, who, &format!("{}subject_public_key_info", p), c.subject_public_key_info())?;
+    field!(s, who, format!("{}basic_ca", p), c.basic_ca());
+    field!(s, who, format!("{}subject_key_identifier", p), c.subject_key_identifier());
+    field!(s, who, format!("{}authority_key_identifier", p), c.authority_key_identifier());
+    field!(s, who, format!("{}key_usage", p), c.key_usage());
+    field!(s, who, format!("{}extended_key_usage", p), c.extended_key_usage().map(|e| e.inspect_router().is_ok()));
+    field!(s, who, format!("{}crl_uri", p), c.crl_uri().map(|u| u.as_str().to_string()));
+    field!(s, who, format!("{}ca_issuer", p), c.ca_issuer().map(|u| u.as_str().to_string()));
+    field!(s, who, format!("{}ca_repository", p), c.ca_repository().map(|u| u.as_str().to_string()));
+    field!(s, who, format!("{}rpki_manifest", p), c.rpki_manifest().map(|u| u.as_str().to_string()));
+    field!(s, who, format!("{}signed_object", p), c.signed_object().map(|u| u.as_str().to_string()));
+    field!(s, who, format!("{}rpki_notify", p), c.rpki_notify().map(|u| u.as_str().to_string()));
+    field!(s, who, format!("{}overclaim", p), c.overclaim());
+    snap_ip(s, who, &format!("{}v4_resources", p), c.v4_resources(), true)?;
+    snap_ip(s, who, &format!("{}v6_resources", p), c.v6_resources(), false)?;
+    field!(s, who, format!("{}has_ip_resources", p), c.has_ip_resources());
+    snap_as(s, who, &format!("{}as_resources", p), c.as_resources(), as_countable)?;
+    field!(s, who, format!("{}is_ca", p), c.is_ca());
+    field!(s, who, format!("{}is_self_signed", p), c.is_self_signed());
+    field!(s, who, format!("{}tbs_encoded", p), hex(&keys::sha256(&captured(c.encode_ref()))));
+    Ok(())
+}
+
+//------------ sub-check: cert ---------------------------------------------------------
+
+#[derive(Clone, Debug, Serialize, Deserialize)]
+pub struct CertCase {
+    /// 0 trust anchor, 1 CA, 2 EE, 3 router
+    pub kind: u8,
+    pub issuer_key: u8,
+    pub subject_key: u8,
+    pub serial: Vec<u8>,
+    pub issuer_name: NameSpec,
+    pub subject_name: NameSpec,
+    pub window: Window,
+    pub trim: bool,
+    pub strict: bool,
+    pub ta_aki: bool,
+    pub v4: ResSpec,
+    pub v6: ResSpec,
+    pub asn: ResSpec,
+    pub crl_uri: String,
+    pub ca_issuer: String,
+    pub ca_repository: String,
+    pub rpki_manifest: String,
+    pub signed_object: String,
+    pub rpki_notify: Option<String>,
+}
+
+fn cert_strategy(_: Tier) -> BoxedStrategy<CertCase> {
+    (
+        (prop::sample::select(vec![0u8, 1, 1, 2, 2, 3]), 0u8..8, 1u8..8, serial_strategy(), name_strategy(), name_strategy()),
+        (window_strategy(), any::<bool>(), any::<bool>(), any::<bool>()),
+        (res_strategy(true, true), res_strategy(false, true), res_strategy(true, true)),
+        (rsync_strategy(None), rsync_strategy(None), rsync_strategy(None), rsync_strategy(None), rsync_strategy(None), prop::option::of(https_strategy())),
+    )
+        .prop_map(|((kind, issuer_key, delta, serial, issuer_name, subject_name), (window, trim, strict, ta_aki), (v4, v6, asn), uris)| {
+            let mut c = CertCase {
+                kind,
+                issuer_key,
+                subject_key: (issuer_key + delta) % 8,
+                serial,
+                issuer_name,
+                subject_name,
+                window,
+                trim,
+                strict,
+                ta_aki,
+                v4,
+                v6,
+                asn,
+                crl_uri: uris.0,
+                ca_issuer: uris.1,
+                ca_repository: uris.2,
+                rpki_manifest: uris.3,
+                signed_object: uris.4,
+                rpki_notify: uris.5,
+            };
+            // stay inside the profile
+            if c.kind == 0 {
+                c.subject_key = c.issuer_key;
+                c.subject_name = c.issuer_name.clone();
+                for r in [&mut c.v4, &mut c.v6, &mut c.asn] {
+                    if *r == ResSpec::Inherit {
+                        *r = ResSpec::Missing;
+                    }
+                }
+            }
+            if c.kind == 3 {
+                c.v4 = ResSpec::Missing;
+                c.v6 = ResSpec::Missing;
+                if !matches!(c.asn, ResSpec::Blocks(_)) {
+                    c.asn = ResSpec::Blocks(vec![(U128(64496), U128(64511))]);
+                }
+            }
+            if !c.v4.present() && !c.v6.present() && !c.asn.present() {
+                c.asn = ResSpec::Blocks(vec![(U128(0), U128(u32::MAX as u128))]);
+            }
+            c
+        })
+        .boxed()
+}
+
+fn run_cert(c: &CertCase, obs: &mut Obs) -> CheckResult {
+    let signer = PoolSigner::new();
+    let kind = c.kind % 4;
+    obs.label(["cert-ta", "cert-ca", "cert-ee", "cert-router"][kind as usize]);
+    let fams = [&c.v4, &c.v6, &c.asn].iter().filter(|r| r.present()).count();
+    let entries = c.v4.entries().max(c.v6.entries()).max(c.asn.entries());
+    obs.nontrivial_if(fams >= 2 || entries >= 2);
+    obs.label_if(entries >= 2, "blocks>=2");
+    obs.label_if([&c.v4, &c.v6, &c.asn].iter().any(|r| **r == ResSpec::Inherit), "inherit");
+    obs.label_if(c.serial.len() == 20, "serial-20-octets");
+    obs.label_if(c.window.nb < -631_152_000 || c.window.na >= 2_524_608_000, "generalized-time");
+    obs.label_if(c.window.nb >= -631_152_000 && c.window.nb < 2_524_608_000, "utc-time");
+
+    let issuer_pub = signer.info(c.issuer_key as usize);
+    let subject_pub = if kind == 3 { keys::ec_key(c.subject_key as usize) } else { signer.info(c.subject_key as usize) };
+    let issuer_name = make_name(&c.issuer_name)?.unwrap_or_else(|| issuer_pub.to_subject_name());
+    let subject_name = make_name(&c.subject_name)?;
+    let built = no_panic("certificate builder", || -> Result<Cert, Fail> {
+        let mut tbs = TbsCert::new(
+            serial_of(&c.serial)?,
+            issuer_name.clone(),
+            c.window.validity()?,
+            subject_name.clone(),
+            subject_pub.clone(),
+            if kind <= 1 { KeyUsage::Ca } else { KeyUsage::Ee },
+            if c.trim { Overclaim::Trim } else { Overclaim::Refuse },
+        );
+        match kind {
+            0 | 1 => {
+                tbs.set_basic_ca(Some(true));
+                tbs.set_ca_repository(Some(rsync(&c.ca_repository)?));
+                tbs.set_rpki_manifest(Some(rsync(&c.rpki_manifest)?));
+                if let Some(n) = &c.rpki_notify {
+                    tbs.set_rpki_notify(Some(https(n)?));
+                }
+            }
+            2 => tbs.set_signed_object(Some(rsync(&c.signed_object)?)),
+            _ => tbs.set_extended_key_usage(Some(ExtendedKeyUsage::create_router())),
+        }
+        if kind == 0 {
+            if c.ta_aki {
+                tbs.set_authority_key_identifier(Some(subject_pub.key_identifier()));
+            }
+        } else {
+            tbs.set_authority_key_identifier(Some(issuer_pub.key_identifier()));
+            tbs.set_crl_uri(Some(rsync(&c.crl_uri)?));
+            tbs.set_ca_issuer(Some(rsync(&c.ca_issuer)?));
+        }
+        match &c.v4 {
+            ResSpec::Missing => {}
+            ResSpec::Inherit => tbs.set_v4_resources_inherit(),
+            r => tbs.build_v4_resource_blocks(|b| ip_blocks(r, true).into_iter().for_each(|x| b.push(x))),
+        }
+        match &c.v6 {
+            ResSpec::Missing => {}
+            ResSpec::Inherit => tbs.set_v6_resources_inherit(),
+            // alternate between the two public ways of handing over blocks
+            r if c.trim => tbs.v6_resources_from_iter(ip_blocks(r, false)),
+            r => tbs.build_v6_resource_blocks(|b| ip_blocks(r, false).into_iter().for_each(|x| b.push(x))),
+        }
+        match &c.asn {
+            ResSpec::Missing => {}
+            ResSpec::Inherit => tbs.set_as_resources_inherit(),
+            r if c.strict => tbs.as_resources_from_iter(as_blocks(r)),
+            r => tbs.build_as_resource_blocks(|b| as_blocks(r).into_iter().for_each(|x| b.push(x))),
+        }
+        tbs.into_cert(&signer, &signer.key(c.issuer_key as usize)).map_err(|e| Fail::new(format!("signing failed: {}", e)))
+    })??;
+    let der = no_panic("Cert::to_captured", || built.to_captured().into_bytes().to_vec())?;
+
+    // (1) decodes and validates
+    let decoded = match no_panic("Cert::decode", || Cert::decode(der.as_slice()))? {
+        Ok(d) => d,
+        Err(e) => return Err(Fail::sig("c05:cert:decode", format!("built certificate does not decode: {}", e))),
+    };
+    let now = c.window.eval()?;
+    let verdict = no_panic("validate", || -> Result<Result<(), String>, Fail> {
+        Ok(match kind {
+            0 => decoded.clone().validate_ta_at(TalInfo::from_name("c05".into()).into_arc(), c.strict, now).map(|_| ()).map_err(|e| e.to_string()),
+            1 => decoded.clone().validate_ca_at(&issuer(c.issuer_key as usize)?, c.strict, now).map(|_| ()).map_err(|e| e.to_string()),
+            2 => decoded.clone().validate_ee_at(&issuer(c.issuer_key as usize)?, c.strict, now).map(|_| ()).map_err(|e| e.to_string()),
+            _ => decoded.validate_router_at(&issuer(c.issuer_key as usize)?, c.strict, now).map_err(|e| e.to_string()),
+        })
+    })??;
+    if let Err(e) = verdict {
+        return Err(Fail::sig("c05:cert:validate", format!("built certificate does not validate under its issuer: {}", e)));
+    }
+
+    // (2) bytes
+    ensure_bytes("cert", "reencode", &captured(decoded.encode_ref()), &der)?;
+    let signed = signed_part(&der)?;
+    let tbs: &TbsCert = decoded.as_ref();
+    ensure_bytes("cert", "tbs-reencode", &captured(tbs.encode_ref()), signed)?;
+    let tbs_b: &TbsCert = built.as_ref();
+    ensure_bytes("cert", "tbs-built", &captured(tbs_b.encode_ref()), signed)?;
+
+    // (3) accessors
+    let raw_sum: u128 = match &c.asn {
+        ResSpec::Blocks(v) => v.iter().map(|x| x.1 .0 - x.0 .0 + 1).sum(),
+        _ => 0,
+    };
+    let cnt = raw_sum <= u32::MAX as u128 && as_count(&c.asn) <= u32::MAX as u128;
+    let mut sb = Snap::new();
+    snap_cert(&mut sb, "built", "", tbs_b, cnt)?;
+    let mut sd = Snap::new();
+    snap_cert(&mut sd, "decoded", "", tbs, cnt)?;
+    compare_snaps("cert", &sb, &sd)
+}
+
+//------------ sub-check: crl ----------------------------------------------------------
+
+#[derive(Clone, Debug, Serialize, Deserialize)]
+pub struct CrlCase {
+    pub issuer_key: u8,
+    pub issuer_name: NameSpec,
+    pub this_update: i64,
+    pub next_update: i64,
+    pub crl_number: Vec<u8>,
+    /// (serial, revocation time): unsorted, duplicates allowed
+    pub entries: Vec<(Vec<u8>, i64)>,
+    pub probes: Vec<Vec<u8>>,
+}
+
+fn crl_strategy(_: Tier) -> BoxedStrategy<CrlCase> {
+    let entry = (serial_strategy(), time_strategy());
+    let entries = prop_oneof![
+        1 => Just(Vec::new()),
+        5 => prop::collection::vec(entry.clone(), 1..8),
+        2 => (prop::collection::vec(entry.clone(), 1..6), any::<u64>()).prop_map(|(mut v, r)| {
+            // duplicates
+            let k = (r % v.len() as u64) as usize;
+            let e = v[k].clone();
+            v.push(e);
+            v
+        }),
+        1 => prop::collection::vec(entry, 8..301),
+    ];
+    (0u8..8, name_strategy(), time_strategy(), time_strategy(), serial_strategy(), entries, prop::collection::vec(serial_strategy(), 0..3))
+        .prop_map(|(issuer_key, issuer_name, a, b, crl_number, entries, probes)| CrlCase {
+            issuer_key,
+            issuer_name,
+            this_update: a.min(b),
+            next_update: a.max(b),
+            crl_number,
+            entries,
+            probes,
+        })
+        .boxed()
+}
+
+fn snap_crl(s: &mut Snap, who: &str, crl: &Crl, probes: &[Serial]) -> CheckResult {
+    field!(s, who, "signature", hex(&captured(crl.signature().x509_encode())));
+    field!(s, who, "issuer", hex(&captured(crl.issuer().encode_ref())));
+    field!(s, who, "this_update", show_time(crl.this_update()));
+    field!(s, who, "next_update", show_time(crl.next_update()));
+    field!(s, who, "authority_key_identifier", crl.authority_key_identifier());
+    field!(s, who, "crl_number", (crl.crl_number(), hex(&crl.crl_number().into_array())));
+    field!(s, who, "revoked_certs.iter", crl.revoked_certs().iter().map(|e| format!("{}@{}", e.user_certificate, show_time(e.revocation_date))).collect::<Vec<_>>());
+    field!(s, who, "revoked_certs.encoded", hex(&captured(crl.revoked_certs().encode_ref())));
+    field!(s, who, "contains", probes.iter().map(|p| crl.contains(*p)).collect::<Vec<_>>());
+    field!(s, who, "revoked_certs.contains", probes.iter().map(|p| crl.revoked_certs().contains(*p)).collect::<Vec<_>>());
+    field!(s, who, "contains (cached)", {
+        let mut c = crl.clone();
+        c.cache_serials();
+        probes.iter().map(|p| c.contains(*p)).collect::<Vec<_>>()
+    });
+    field!(s, who, "signed_data", (hex(&keys::sha256(crl.signed_data().data().as_slice())), hex(&keys::sha256(crl.signed_data().signature().value()))));
+    field!(s, who, "tbs_encoded", hex(&keys::sha256(&captured(crl.as_cert_list().encode_ref()))));
+    Ok(())
+}
+
+fn run_crl(c: &CrlCase, obs: &mut Obs) -> CheckResult {
+    let signer = PoolSigner::new();
+    obs.nontrivial_if(c.entries.len() >= 2);
+    obs.label(match c.entries.len() {
+        0 => "revoked-0",
+        1 => "revoked-1",
+        2..=7 => "revoked-2..7",
+        _ => "revoked-8..300",
+    });
+    let issuer_pub = signer.info(c.issuer_key as usize);
+    let name = make_name(&c.issuer_name)?.unwrap_or_else(|| issuer_pub.to_subject_name());
+    let mut entries = Vec::new();
+    for (s, t) in &c.entries {
+        entries.push(CrlEntry::new(serial_of(s)?, time_s(*t)?));
+    }
+    let built = no_panic("CRL builder", || -> Result<Crl, Fail> {
+        TbsCertList::new(
+            Default::default(),
+            name.clone(),
+            time_s(c.this_update)?,
+            time_s(c.next_update)?,
+            entries.clone(),
+            issuer_pub.key_identifier(),
+            serial_of(&c.crl_number)?,
+        )
+        .into_crl(&signer, &signer.key(c.issuer_key as usize))
+        .map_err(|e| Fail::new(format!("signing failed: {}", e)))
+    })??;
+    let der = no_panic("Crl::to_captured", || built.to_captured().into_bytes().to_vec())?;
+    let decoded = match no_panic("Crl::decode", || Crl::decode(der.as_slice()))? {
+        Ok(d) => d,
+        Err(e) => return Err(Fail::sig("c05:crl:decode", format!("built CRL does not decode: {}", e))),
+    };
+    if let Err(e) = no_panic("Crl::verify_signature", || decoded.verify_signature(&issuer_pub))? {
+        return Err(Fail::sig("c05:crl:validate", format!("built CRL does not verify under its issuer key: {}", e)));
+    }
+    ensure_bytes("crl", "reencode", &captured(decoded.encode_ref()), &der)?;
+    let signed = signed_part(&der)?;
+    ensure_bytes("crl", "tbs-reencode", &captured(decoded.as_cert_list().encode_ref()), signed)?;
+    ensure_bytes("crl", "tbs-built", &captured(built.as_cert_list().encode_ref()), signed)?;
+    // RFC 5280 5.1.2.6: "When there are no revoked certificates, the revoked certificates list
+    // MUST be absent" (independent walk over the TBSCertList elements)
+    {
+        let (_, mut pos, end) = tlv(signed, 0).ok_or_else(|| Fail::new("harness: TBSCertList"))?;
+        let mut tags = Vec::new();
+        while pos < end {
+            let (t, _, e) = tlv(signed, pos).ok_or_else(|| Fail::new("harness: TBSCertList element"))?;
+            tags.push(t);
+            pos = e;
+        }
+        let has_list = tags.len() == 7 && tags[5] == 0x30;
+        ensure_sig!(
+            tags.len() >= 6 && has_list == !entries.is_empty(),
+            "c05:crl:revoked-list-presence",
+            "TBSCertList element tags {:02x?}: revokedCertificates present = {}, {} entries were given",
+            tags,
+            has_list,
+            entries.len()
+        );
+    }
+
+    let mut probes: Vec<Serial> = entries.iter().map(|e| e.user_certificate).collect();
+    probes.truncate(12);
+    for p in &c.probes {
+        probes.push(serial_of(p)?);
+    }
+    let mut sb = Snap::new();
+    snap_crl(&mut sb, "built", &built, &probes)?;
+    let mut sd = Snap::new();
+    snap_crl(&mut sd, "decoded", &decoded, &probes)?;
+    compare_snaps("crl", &sb, &sd)?;
+    // what went in comes out (order and duplicates preserved), independent of the twin
+    let listed: Vec<(Serial, Time)> = decoded.revoked_certs().iter().map(|e| (e.user_certificate, e.revocation_date)).collect();
+    let want: Vec<(Serial, Time)> = entries.iter().map(|e| (e.user_certificate, e.revocation_date)).collect();
+    ensure_sig!(listed == want, "c05:crl:entries", "decoded CRL lists {} entries, {} were given, or they differ", listed.len(), want.len());
+    Ok(())
+}
+
+//------------ signed-object scaffolding shared by manifest / ROA / ASPA ----------------
+
+#[derive(Clone, Debug, Serialize, Deserialize)]
+pub struct EeSpec {
+    pub issuer_key: u8,
+    /// one-off key (differs from the issuer key)
+    pub ee_key: u8,
+    pub serial: Vec<u8>,
+    pub window: Window,
+    pub signing_time: i64,
+    pub issuer_name: NameSpec,
+    pub subject_name: NameSpec,
+    pub crl_uri: String,
+    pub ca_issuer: String,
+    pub signed_object: String,
+    pub strict: bool,
+}
+
+fn ee_strategy() -> BoxedStrategy<EeSpec> {
+    (
+        (0u8..8, 1u8..8, serial_strategy(), window_strategy(), time_strategy()),
+        (name_strategy(), name_strategy(), rsync_strategy(None), rsync_strategy(None), rsync_strategy(Some(false)), any::<bool>()),
+    )
+        .prop_map(|((issuer_key, delta, serial, window, signing_time), (issuer_name, subject_name, crl_uri, ca_issuer, signed_object, strict))| EeSpec {
+            issuer_key,
+            ee_key: (issuer_key + delta) % 8,
+            serial,
+            window,
+            signing_time,
+            issuer_name,
+            subject_name,
+            crl_uri,
+            ca_issuer,
+            signed_object,
+            strict,
+        })
+        .boxed()
+}
+
+fn sigobj_builder(e: &EeSpec) -> Result<SignedObjectBuilder, Fail> {
+    let mut b = SignedObjectBuilder::new(serial_of(&e.serial)?, e.window.validity()?, rsync(&e.crl_uri)?, rsync(&e.ca_issuer)?, rsync(&e.signed_object)?);
+    b.set_issuer(make_name(&e.issuer_name)?);
+    b.set_subject(make_name(&e.subject_name)?);
+    b.set_signing_time(time_s(e.signing_time)?);
+    Ok(b)
+}
+
+fn ee_signer(e: &EeSpec) -> PoolSigner {
+    PoolSigner::with_first(e.ee_key as usize, 0)
+}
+
+/// Decodes the DER as a generic signed object, validates it under the issuer
+/// and returns the eContent octets.
+fn check_signed_object(kind: &str, e: &EeSpec, der: &[u8]) -> Result<Vec<u8>, Fail> {
+    let so = match no_panic("SignedObject::decode", || SignedObject::decode(der, true))? {
+        Ok(s) => s,
+        Err(err) => return Err(Fail::sig(format!("c05:{}:decode", kind), format!("built {} does not decode as a signed object: {}", kind, err))),
+    };
+    let content = so.content().to_bytes().to_vec();
+    ensure_bytes(kind, "sigobj-reencode", &captured(so.encode_ref()), der)?;
+    let iss = issuer(e.issuer_key as usize)?;
+    let now = e.window.eval()?;
+    if let Err(err) = no_panic("SignedObject::validate_at", || so.validate_at(&iss, e.strict, now))? {
+        return Err(Fail::sig(format!("c05:{}:validate", kind), format!("built {} does not validate under its issuer: {}", kind, err)));
+    }
+    Ok(content)
+}
+
+//------------ sub-check: manifest -----------------------------------------------------
+
+#[derive(Clone, Debug, Serialize, Deserialize)]
+pub struct MftCase {
+    pub ee: EeSpec,
+    pub number: Vec<u8>,
+    pub this_update: i64,
+    pub next_update: i64,
+    pub files: Vec<(String, Vec<u8>)>,
+}
+
+fn mft_strategy(_: Tier) -> BoxedStrategy<MftCase> {
+    let file = ("[A-Za-z0-9_-]{1,24}", prop::sample::select(vec!["cer", "crl", "roa", "mft", "asa", "gbr", "tak", "sig", "ABC", "xyz"]), prop::collection::vec(any::<u8>(), 32..=32), any::<u8>())
+        .prop_map(|(stem, ext, mut hash, r)| {
+            if r % 8 == 0 {
+                hash = vec![0; 32];
+            }
+            (format!("{}.{}", stem, ext), hash)
+        });
+    let files = prop_oneof![
+        1 => Just(Vec::new()),
+        6 => prop::collection::vec(file.clone(), 1..8),
+        1 => prop::collection::vec(file, 8..41),
+    ];
+    (ee_strategy(), serial_strategy(), time_strategy(), time_strategy(), files)
+        .prop_map(|(ee, number, a, b, mut files)| {
+            // file names are unique on a manifest
+            let mut seen = std::collections::BTreeSet::new();
+            files.retain(|f| seen.insert(f.0.clone()));
+            MftCase { ee, number, this_update: a.min(b), next_update: a.max(b), files }
+        })
+        .boxed()
+}
+
+fn snap_mft(s: &mut Snap, who: &str, m: &Manifest) -> CheckResult {
+    let c = m.content();
+    field!(s, who, "manifest_number", (c.manifest_number(), hex(&c.manifest_number().into_array())));
+    field!(s, who, "this_update", show_time(c.this_update()));
+    field!(s, who, "next_update", show_time(c.next_update()));
+    field!(s, who, "file_hash_alg", c.file_hash_alg());
+    field!(s, who, "len", c.len());
+    field!(s, who, "is_empty", c.is_empty());
+    field!(s, who, "iter", c.iter().map(|f| format!("{}={}", String::from_utf8_lossy(f.file()), hex(f.hash()))).collect::<Vec<_>>());
+    let base = uri::Rsync::from_string("rsync://example.net/repo/ca/".into()).map_err(|e| Fail::new(e.to_string()))?;
+    field!(s, who, "iter_uris", c.iter_uris(&base).map(|(u, h)| format!("{}={}/{:?}", u, hex(h.as_slice()), h.algorithm())).collect::<Vec<_>>());
+    field!(s, who, "content_encoded", hex(&captured(c.encode_ref())));
+    field!(s, who, "deref.len", { let d: &ManifestContent = m; d.len() });
+    snap_cert(s, who, "cert.", m.cert(), true)
+}
+
+fn run_mft(c: &MftCase, obs: &mut Obs) -> CheckResult {
+    obs.nontrivial_if(c.files.len() >= 2);
+    obs.label(match c.files.len() {
+        0 => "files-0",
+        1 => "files-1",
+        2..=7 => "files-2..7",
+        _ => "files-8..40",
+    });
+    let signer = ee_signer(&c.ee);
+    let built = no_panic("manifest builder", || -> Result<Manifest, Fail> {
+        let content = ManifestContent::new(
+            serial_of(&c.number)?,
+            time_s(c.this_update)?,
+            time_s(c.next_update)?,
+            DigestAlgorithm::sha256(),
+            c.files.iter().map(|(n, h)| FileAndHash::new(n.as_bytes().to_vec(), h.clone())),
+        );
+        content
+            .into_manifest(sigobj_builder(&c.ee)?, &signer, &signer.key(c.ee.issuer_key as usize))
+            .map_err(|e| Fail::new(format!("signing failed: {}", e)))
+    })??;
+    let der = no_panic("Manifest::to_captured", || built.to_captured().into_bytes().to_vec())?;
+    let decoded = match no_panic("Manifest::decode", || Manifest::decode(der.as_slice(), true))? {
+        Ok(d) => d,
+        Err(e) => return Err(Fail::sig("c05:manifest:decode", format!("built manifest does not decode: {}", e))),
+    };
+    let econtent = check_signed_object("manifest", &c.ee, &der)?;
+    let iss = issuer(c.ee.issuer_key as usize)?;
+    let now = c.ee.window.eval()?;
+    if let Err(e) = no_panic("Manifest::validate_at", || decoded.clone().validate_at(&iss, c.ee.strict, now))? {
+        return Err(Fail::sig("c05:manifest:validate", format!("built manifest does not validate: {}", e)));
+    }
+    ensure_bytes("manifest", "reencode", &captured(decoded.encode_ref()), &der)?;
+    ensure_bytes("manifest", "content-reencode", &captured(decoded.content().encode_ref()), &econtent)?;
+    ensure_bytes("manifest", "content-built", &captured(built.content().encode_ref()), &econtent)?;
+    ensure_bytes("manifest", "tbs-reencode", &captured({ let t: &TbsCert = decoded.cert().as_ref(); t.encode_ref() }), signed_part(&captured(decoded.cert().encode_ref()))?)?;
+    let mut sb = Snap::new();
+    snap_mft(&mut sb, "built", &built)?;
+    let mut sd = Snap::new();
+    snap_mft(&mut sd, "decoded", &decoded)?;
+    compare_snaps("manifest", &sb, &sd)?;
+    let listed: Vec<(Vec<u8>, Vec<u8>)> = decoded.content().iter().map(|f| (f.file().to_vec(), f.hash().to_vec())).collect();
+    let want: Vec<(Vec<u8>, Vec<u8>)> = c.files.iter().map(|(n, h)| (n.as_bytes().to_vec(), h.clone())).collect();
+    ensure_sig!(listed == want, "c05:manifest:entries", "decoded manifest lists {} files, {} were given, or they differ", listed.len(), want.len());
+    Ok(())
+}
+
+//------------ sub-check: roa ----------------------------------------------------------
+
+#[derive(Clone, Debug, Serialize, Deserialize)]
+pub struct RoaCase {
+    pub ee: EeSpec,
+    pub asn: u32,
+    /// (address, length, max length)
+    pub v4: Vec<(u32, u8, Option<u8>)>,
+    pub v6: Vec<(U128, u8, Option<u8>)>,
+}
+
+fn roa_strategy(_: Tier) -> BoxedStrategy<RoaCase> {
+    let p4 = (dense_u32(), 0u8..=32, prop::option::of(0u8..=32), any::<bool>()).prop_map(|(a, len, extra, keep_host)| {
+        let mask = if len == 0 { 0 } else { u32::MAX << (32 - len as u32) };
+        let addr = if keep_host { a } else { a & mask };
+        (addr, len, extra.map(|e| (len as u32 + e as u32).min(32) as u8))
+    });
+    let p6 = (dense_u128(), prop_oneof![0u8..=128, prop::sample::select(vec![0u8, 1, 7, 8, 9, 32, 48, 64, 127, 128])], prop::option::of(0u8..=128), any::<bool>()).prop_map(|(a, len, extra, keep_host)| {
+        let mask = if len == 0 { 0 } else { u128::MAX << (128 - len as u32) };
+        let addr = if keep_host { a } else { a & mask };
+        (U128(addr), len, extra.map(|e| (len as u32 + e as u32).min(128) as u8))
+    });
+    // lists where later entries nest in / cover / neighbour earlier ones
+    let l4 = prop_oneof![
+        2 => Just(Vec::new()),
+        5 => prop::collection::vec(p4.clone(), 1..6),
+        2 => (prop::collection::vec(p4.clone(), 2..5), any::<u64>()).prop_map(|(mut v, r)| {
+            let (a, len, _) = v[(r % v.len() as u64) as usize];
+            let shorter = (len as u64).saturating_sub(1 + (r >> 8) % 8) as u8;
+            v.push((a, shorter, None));
+            if (r >> 20) % 2 == 0 { v.push((a, len, Some(32))); }
+            v
+        }),
+        1 => prop::collection::vec(p4, 6..30),
+    ];
+    let l6 = prop_oneof![
+        3 => Just(Vec::new()),
+        5 => prop::collection::vec(p6.clone(), 1..6),
+        2 => (prop::collection::vec(p6.clone(), 2..5), any::<u64>()).prop_map(|(mut v, r)| {
+            let (a, len, _) = v[(r % v.len() as u64) as usize];
+            let shorter = (len as u64).saturating_sub(1 + (r >> 8) % 16) as u8;
+            v.push((a, shorter, None));
+            v
+        }),
+        1 => prop::collection::vec(p6, 6..30),
+    ];
+    (ee_strategy(), dense_u32(), l4, l6)
+        .prop_map(|(ee, asn, mut v4, v6)| {
+            if v4.is_empty() && v6.is_empty() {
+                v4.push((0xC000_0200, 24, None));
+            }
+            RoaCase { ee, asn, v4, v6 }
+        })
+        .boxed()
+}
+
+fn snap_roa(s: &mut Snap, who: &str, r: &Roa) -> CheckResult {
+    let c = r.content();
+    field!(s, who, "as_id", c.as_id());
+    field!(s, who, "v4_addrs.is_empty", c.v4_addrs().is_empty());
+    field!(s, who, "v6_addrs.is_empty", c.v6_addrs().is_empty());
+    field!(s, who, "v4_addrs.iter", c.v4_addrs().iter().map(|a| format!("{:x}/{}-{:?} {:?}", a.prefix().addr().to_bits(), a.prefix().addr_len(), a.max_length(), a.range())).collect::<Vec<_>>());
+    field!(s, who, "v6_addrs.iter", c.v6_addrs().iter().map(|a| format!("{:x}/{}-{:?} {:?}", a.prefix().addr().to_bits(), a.prefix().addr_len(), a.max_length(), a.range())).collect::<Vec<_>>());
+    field!(s, who, "iter", c.iter().map(|a| format!("{} {} {} {} {} {:?}", a, a.address(), a.address_length(), a.max_length(), a.is_v4(), a.prefix())).collect::<Vec<_>>());
+    field!(s, who, "iter_origins", c.iter_origins().map(|o| format!("{:?}", o)).collect::<Vec<_>>());
+    field!(s, who, "content_encoded", hex(&captured(c.encode_ref())));
+    snap_cert(s, who, "cert.", r.cert(), true)
+}
+
+fn run_roa(c: &RoaCase, obs: &mut Obs) -> CheckResult {
+    let n = c.v4.len() + c.v6.len();
+    obs.nontrivial_if(n >= 2);
+    obs.label_if(n >= 2, "prefixes>=2");
+    obs.label_if(!c.v4.is_empty() && !c.v6.is_empty(), "both-families");
+    obs.label_if(c.ee.window.wide(), "processed");
+    let signer = ee_signer(&c.ee);
+    let built = no_panic("ROA builder", || -> Result<Roa, Fail> {
+        let mut b = RoaBuilder::new(Asn::from_u32(c.asn));
+        for &(a, len, ml) in &c.v4 {
+            b.push_v4_addr(Ipv4Addr::from(a), len, ml);
+        }
+        for &(a, len, ml) in &c.v6 {
+            b.push_v6_addr(Ipv6Addr::from(a.0), len, ml);
+        }
+        b.finalize(sigobj_builder(&c.ee)?, &signer, &signer.key(c.ee.issuer_key as usize))
+            .map_err(|e| Fail::new(format!("signing failed: {}", e)))
+    })??;
+    let der = no_panic("Roa::to_captured", || built.to_captured().into_bytes().to_vec())?;
+    let decoded = match no_panic("Roa::decode", || Roa::decode(der.as_slice(), true))? {
+        Ok(d) => d,
+        Err(e) => return Err(Fail::sig("c05:roa:decode", format!("built ROA does not decode: {}", e))),
+    };
+    let econtent = check_signed_object("roa", &c.ee, &der)?;
+    if c.ee.window.wide() {
+        let iss = issuer(c.ee.issuer_key as usize)?;
+        if let Err(e) = no_panic("Roa::process", || decoded.clone().process(&iss, c.ee.strict, |_| Ok(())))? {
+            return Err(Fail::sig("c05:roa:validate", format!("built ROA is not accepted by Roa::process: {}", e)));
+        }
+    }
+    ensure_bytes("roa", "reencode", &captured(decoded.encode_ref()), &der)?;
+    ensure_bytes("roa", "content-reencode", &no_panic("decoded content encode_ref", || captured(decoded.content().encode_ref()))?, &econtent)?;
+    ensure_bytes("roa", "content-built", &captured(built.content().encode_ref()), &econtent)?;
+    ensure_bytes("roa", "tbs-reencode", &captured({ let t: &TbsCert = decoded.cert().as_ref(); t.encode_ref() }), signed_part(&captured(decoded.cert().encode_ref()))?)?;
+    let mut sd = Snap::new();
+    snap_roa(&mut sd, "decoded", &decoded)?;
+    let mut sb = Snap::new();
+    snap_roa(&mut sb, "built", &built)?;
+    compare_snaps("roa", &sb, &sd)?;
+    // the decoded prefixes are the ones handed to the builder (host bits cleared), in order
+    let want: Vec<(u128, u8, Option<u8>)> = c
+        .v4
+        .iter()
+        .map(|&(a, l, m)| ((if l == 0 { 0 } else { (a & (u32::MAX << (32 - l as u32))) as u128 }) << 96, l, m))
+        .chain(c.v6.iter().map(|&(a, l, m)| (if l == 0 { 0 } else { a.0 & (u128::MAX << (128 - l as u32)) }, l, m)))
+        .collect();
+    let got: Vec<(u128, u8, Option<u8>)> = decoded
+        .content()
+        .v4_addrs()
+        .iter()
+        .chain(decoded.content().v6_addrs().iter())
+        .map(|a| (a.prefix().addr().to_bits(), a.prefix().addr_len(), a.max_length()))
+        .collect();
+    ensure_sig!(got == want, "c05:roa:entries", "decoded ROA lists {:x?}, the builder was given {:x?}", got, want);
+    Ok(())
+}
+
+//------------ sub-check: aspa ---------------------------------------------------------
+
+#[derive(Clone, Debug, Serialize, Deserialize)]
+pub struct AspaCase {
+    pub ee: EeSpec,
+    pub customer: u32,
+    /// distinct, without the customer, any order
+    pub providers: Vec<u32>,
+    /// add the providers one by one instead of handing over the list
+    pub one_by_one: bool,
+}
+
+fn aspa_strategy(tier: Tier) -> BoxedStrategy<AspaCase> {
+    let big = tier.pick(2000usize, 16381usize);
+    let providers = prop_oneof![
+        3 => prop::collection::vec(dense_u32(), 1..2),
+        6 => prop::collection::vec(dense_u32(), 2..10),
+        2 => prop::collection::vec(any::<u32>(), 10..130),
+        1 => (0u32..4_000_000_000, 100usize..big, 1u32..70_000).prop_map(|(start, n, step)| (0..n as u32).map(|k| start.wrapping_add(k.wrapping_mul(step))).collect::<Vec<u32>>()),
+    ];
+    (ee_strategy(), dense_u32(), providers, any::<bool>(), any::<u64>())
+        .prop_map(|(ee, customer, mut providers, one_by_one, r)| {
+            let mut seen = std::collections::BTreeSet::new();
+            providers.retain(|p| *p != customer && seen.insert(*p));
+            if providers.is_empty() {
+                providers.push(customer.wrapping_add(1));
+            }
+            providers.truncate(16380);
+            if r % 3 == 0 {
+                providers.reverse();
+            }
+            AspaCase { ee, customer, providers, one_by_one }
+        })
+        .boxed()
+}
+
+fn snap_aspa(s: &mut Snap, who: &str, a: &Aspa) -> CheckResult {
+    let c = a.content();
+    field!(s, who, "customer_as", c.customer_as());
+    field!(s, who, "provider_as_set.len", c.provider_as_set().len());
+    field!(s, who, "provider_as_set.iter", c.provider_as_set().iter().collect::<Vec<_>>());
+    field!(s, who, "provider_as_set.to_set", c.provider_as_set().to_set().iter().collect::<Vec<_>>());
+    field!(s, who, "as_resources", c.as_resources().to_string());
+    field!(s, who, "content_encoded", hex(&captured(c.encode_ref())));
+    snap_cert(s, who, "cert.", a.cert(), true)
+}
+
+fn run_aspa(c: &AspaCase, obs: &mut Obs) -> CheckResult {
+    obs.nontrivial_if(c.providers.len() >= 2);
+    obs.label(match c.providers.len() {
+        1 => "providers-1",
+        2..=9 => "providers-2..9",
+        10..=129 => "providers-10..129",
+        _ => "providers-130..",
+    });
+    obs.label_if(c.ee.window.wide(), "processed");
+    let signer = ee_signer(&c.ee);
+    let built = no_panic("ASPA builder", || -> Result<Aspa, Fail> {
+        let customer = Asn::from_u32(c.customer);
+        let b = if c.one_by_one {
+            let mut b = AspaBuilder::empty(customer);
+            for p in &c.providers {
+                b.add_provider(Asn::from_u32(*p)).map_err(|e| Fail::new(format!("generator: {}", e)))?;
+            }
+            b
+        } else {
+            AspaBuilder::new(customer, c.providers.iter().map(|p| Asn::from_u32(*p)).collect::<Vec<_>>())
+                .map_err(|e| Fail::new(format!("generator: {}", e)))?
+        };
+        b.finalize(sigobj_builder(&c.ee)?, &signer, &signer.key(c.ee.issuer_key as usize))
+            .map_err(|e| Fail::new(format!("signing failed: {}", e)))
+    })??;
+    let der = no_panic("Aspa::to_captured", || built.to_captured().into_bytes().to_vec())?;
+    let decoded = match no_panic("Aspa::decode", || Aspa::decode(der.as_slice(), true))? {
+        Ok(d) => d,
+        Err(e) => return Err(Fail::sig("c05:aspa:decode", format!("built ASPA does not decode: {}", e))),
+    };
+    let econtent = check_signed_object("aspa", &c.ee, &der)?;
+    if c.ee.window.wide() {
+        let iss = issuer(c.ee.issuer_key as usize)?;
+        if let Err(e) = no_panic("Aspa::process", || decoded.clone().process(&iss, c.ee.strict, |_| Ok(())))? {
+            return Err(Fail::sig("c05:aspa:validate", format!("built ASPA is not accepted by Aspa::process: {}", e)));
+        }
+    }
+    ensure_bytes("aspa", "reencode", &captured(decoded.encode_ref()), &der)?;
+    ensure_bytes("aspa", "content-reencode", &no_panic("decoded content encode_ref", || captured(decoded.content().encode_ref()))?, &econtent)?;
+    ensure_bytes("aspa", "content-built", &captured(built.content().encode_ref()), &econtent)?;
+    ensure_bytes("aspa", "tbs-reencode", &captured({ let t: &TbsCert = decoded.cert().as_ref(); t.encode_ref() }), signed_part(&captured(decoded.cert().encode_ref()))?)?;
+    let mut sd = Snap::new();
+    snap_aspa(&mut sd, "decoded", &decoded)?;
+    let mut sb = Snap::new();
+    snap_aspa(&mut sb, "built", &built)?;
+    compare_snaps("aspa", &sb, &sd)?;
+    let mut want: Vec<u32> = c.providers.clone();
+    want.sort_unstable();
+    let got: Vec<u32> = decoded.content().provider_as_set().iter().map(|a| a.into_u32()).collect();
+    ensure_sig!(got == want, "c05:aspa:entries", "decoded ASPA lists {} providers, {} were given, or they differ", got.len(), want.len());
+    Ok(())
+}
+
+//------------ sub-check: csr ----------------------------------------------------------
+
+#[derive(Clone, Debug, Serialize, Deserialize)]
+pub struct CsrCase {
+    pub key: u8,
+    pub ca_repository: String,
+    pub rpki_manifest: String,
+    pub rpki_notify: Option<String>,
+}
+
+fn csr_strategy(_: Tier) -> BoxedStrategy<CsrCase> {
+    (0u8..8, rsync_strategy(None), rsync_strategy(Some(false)), prop::option::of(https_strategy()))
+        .prop_map(|(key, ca_repository, rpki_manifest, rpki_notify)| CsrCase { key, ca_repository, rpki_manifest, rpki_notify })
+        .boxed()
+}
+
+fn run_csr(c: &CsrCase, obs: &mut Obs) -> CheckResult {
+    let signer = PoolSigner::new();
+    let repo = rsync(&c.ca_repository)?;
+    let mft = rsync(&c.rpki_manifest)?;
+    let notify = match &c.rpki_notify {
+        Some(n) => Some(https(n)?),
+        None => None,
+    };
+    let is_dir = repo.path_is_dir();
+    obs.label(if is_dir { "repo-dir" } else { "repo-no-trailing-slash" });
+    obs.label_if(notify.is_some(), "notify");
+    obs.nontrivial_if(!is_dir || notify.is_some());
+    let der = match no_panic("Csr::construct_rpki_ca", || Csr::construct_rpki_ca(&signer, &signer.key(c.key as usize), &repo, &mft, notify.as_ref()))? {
+        Ok(cap) => cap.into_bytes().to_vec(),
+        Err(e) => return Err(Fail::new(format!("signing failed: {}", e))),
+    };
+    let decoded = match no_panic("RpkiCaCsr::decode", || RpkiCaCsr::decode(der.as_slice()))? {
+        Ok(d) => d,
+        Err(e) => return Err(Fail::sig("c05:csr:decode", format!("built CSR does not decode: {}", e))),
+    };
+    if let Err(e) = no_panic("Csr::verify_signature", || decoded.verify_signature())? {
+        return Err(Fail::sig("c05:csr:validate", format!("built CSR does not verify under its own key: {}", e)));
+    }
+    ensure_bytes("csr", "reencode", &captured(decoded.encode_ref()), &der)?;
+    ensure_bytes("csr", "reencode", no_panic("Csr::to_captured", || decoded.to_captured())?.as_slice(), &der)?;
+    // the builder returns bytes only: the decoded accessors are compared with the builder's input
+    let mut s = Snap::new();
+    snap_key(&mut s, "decoded", "public_key", decoded.public_key())?;
+    field!(s, "decoded", "subject", hex(&captured(decoded.subject().encode_ref())));
+    field!(s, "decoded", "basic_ca", decoded.basic_ca());
+    field!(s, "decoded", "key_usage", decoded.key_usage());
+    field!(s, "decoded", "extended_key_usage", decoded.extended_key_usage().is_some());
+    field!(s, "decoded", "ca_repository", decoded.ca_repository().map(|u| u.as_str().to_string()));
+    field!(s, "decoded", "rpki_manifest", decoded.rpki_manifest().map(|u| u.as_str().to_string()));
+    field!(s, "decoded", "rpki_notify", decoded.rpki_notify().map(|u| u.as_str().to_string()));
+    ensure_sig!(*decoded.public_key() == signer.info(c.key as usize), "c05:csr:twin:public_key", "decoded CSR carries another public key");
+    ensure_sig!(decoded.basic_ca() && decoded.key_usage() == KeyUsage::Ca, "c05:csr:twin:basic_ca", "decoded CSR is not a CA request");
+    ensure_sig!(
+        decoded.rpki_manifest().map(|u| u.as_str()) == Some(c.rpki_manifest.as_str()),
+        "c05:csr:twin:rpki_manifest",
+        "decoded rpkiManifest {:?}, given {:?}",
+        decoded.rpki_manifest(),
+        c.rpki_manifest
+    );
+    ensure_sig!(
+        decoded.rpki_notify().map(|u| u.as_str()) == c.rpki_notify.as_deref(),
+        "c05:csr:twin:rpki_notify",
+        "decoded rpkiNotify {:?}, given {:?}",
+        decoded.rpki_notify(),
+        c.rpki_notify
+    );
+    let got_repo = decoded.ca_repository().map(|u| u.as_str().to_string()).unwrap_or_default();
+    ensure_sig!(
+        if is_dir { got_repo == c.ca_repository } else { got_repo.starts_with(c.ca_repository.as_str()) && got_repo.ends_with('/') },
+        "c05:csr:twin:ca_repository",
+        "decoded caRepository {:?}, given {:?}",
+        got_repo,
+        c.ca_repository
+    );
+    Ok(())
+}
+
+//------------ sub-check: idcert -------------------------------------------------------
+
+#[derive(Clone, Debug, Serialize, Deserialize)]
+pub struct IdCertCase {
+    pub ta_key: u8,
+    /// None: trust anchor certificate; Some: EE certificate for that key
+    pub ee_key: Option<u8>,
+    pub window: Window,
+    pub rng: u64,
+}
+
+fn idcert_strategy(_: Tier) -> BoxedStrategy<IdCertCase> {
+    (0u8..8, prop::option::of(1u8..8), window_strategy(), prop_oneof![Just(0u64), any::<u64>()])
+        .prop_map(|(ta_key, delta, window, rng)| IdCertCase { ta_key, ee_key: delta.map(|d| (ta_key + d) % 8), window, rng })
+        .boxed()
+}
+
+fn snap_idcert(s: &mut Snap, who: &str, p: &str, c: &IdCert) -> CheckResult {
+    snap_key(s, who, &format!("{}public_key", p), c.public_key())?;
+    snap_key(s, who, &format!("{}subject_public_key_info", p), c.subject_public_key_info())?;
+    field!(s, who, format!("{}subject_key_identifier", p), c.subject_key_identifier());
+    field!(s, who, format!("{}subject_key_id", p), c.subject_key_id());
+    field!(s, who, format!("{}authority_key_id", p), c.authority_key_id());
+    field!(s, who, format!("{}serial_number", p), (c.serial_number(), hex(&c.serial_number().into_array())));
+    field!(s, who, format!("{}subject", p), hex(&captured(c.subject().encode_ref())));
+    field!(s, who, format!("{}validity", p), (show_time(c.validity().not_before()), show_time(c.validity().not_after())));
+    field!(s, who, format!("{}to_bytes", p), hex(&keys::sha256(c.to_bytes().as_ref())));
+    field!(s, who, format!("{}tbs_encoded", p), hex(&keys::sha256(&captured({ let t: &rpki::ca::idcert::TbsIdCert = c.as_ref(); t.encode_ref() }))));
+    Ok(())
+}
+
+fn run_idcert(c: &IdCertCase, obs: &mut Obs) -> CheckResult {
+    let signer = PoolSigner::with_first(0, c.rng);
+    let key = signer.key(c.ta_key as usize);
+    obs.label(if c.ee_key.is_some() { "idcert-ee" } else { "idcert-ta" });
+    obs.nontrivial_if(c.ee_key.is_some());
+    let validity = c.window.validity()?;
+    let built = match no_panic("IdCert builder", || match c.ee_key {
+        None => IdCert::new_ta(validity, &key, &signer),
+        Some(k) => IdCert::new_ee(&signer.info(k as usize), validity, &key, &signer),
+    })? {
+        Ok(b) => b,
+        Err(e) => return Err(Fail::new(format!("signing failed: {}", e))),
+    };
+    let der = no_panic("IdCert::to_captured", || built.to_captured().into_bytes().to_vec())?;
+    let decoded = match no_panic("IdCert::decode", || IdCert::decode(der.as_slice()))? {
+        Ok(d) => d,
+        Err(e) => return Err(Fail::sig("c05:idcert:decode", format!("built identity certificate does not decode: {}", e))),
+    };
+    let now = c.window.eval()?;
+    let verdict = no_panic("IdCert validate", || match c.ee_key {
+        None => decoded.validate_ta_at(now),
+        Some(_) => decoded.validate_ee_at(&signer.info(c.ta_key as usize), now),
+    })?;
+    if let Err(e) = verdict {
+        return Err(Fail::sig("c05:idcert:validate", format!("built identity certificate does not validate: {}", e)));
+    }
+    ensure_bytes("idcert", "reencode", &captured(decoded.encode_ref()), &der)?;
+    let signed = signed_part(&der)?;
+    ensure_bytes("idcert", "tbs-reencode", &captured({ let t: &rpki::ca::idcert::TbsIdCert = decoded.as_ref(); t.encode_ref() }), signed)?;
+    let mut sb = Snap::new();
+    snap_idcert(&mut sb, "built", "", &built)?;
+    let mut sd = Snap::new();
+    snap_idcert(&mut sd, "decoded", "", &decoded)?;
+    compare_snaps("idcert", &sb, &sd)?;
+    ensure_sig!(built == decoded, "c05:idcert:twin:eq", "built and decoded identity certificate are not equal");
+    Ok(())
+}
+
+//------------ sub-check: sigmsg -------------------------------------------------------
+
+#[derive(Clone, Debug, Serialize, Deserialize)]
+pub struct SigMsgCase {
+    pub ta_key: u8,
+    pub ee_key: u8,
+    pub window: Window,
+    pub rng: u64,
+    pub content: Vec<u8>,
+}
+
+fn sigmsg_strategy(_: Tier) -> BoxedStrategy<SigMsgCase> {
+    let content = prop_oneof![
+        1 => Just(Vec::new()),
+        3 => prop::collection::vec(any::<u8>(), 1..128),
+        3 => prop::collection::vec(any::<u8>(), 128..3000),
+        2 => "<msg xmlns=\"http://www.hactrn.net/uris/rpki/publication-spec/\" version=\"4\" type=\"query\">[a-z<>/ ]{0,200}</msg>".prop_map(|s| s.into_bytes()),
+    ];
+    (0u8..8, 1u8..8, window_strategy(), any::<u64>(), content)
+        .prop_map(|(ta_key, delta, window, rng, content)| SigMsgCase { ta_key, ee_key: (ta_key + delta) % 8, window, rng, content })
+        .boxed()
+}
+
+fn snap_sigmsg(s: &mut Snap, who: &str, m: &SignedMessage) -> CheckResult {
+    field!(s, who, "content_type", m.content_type().to_string());
+    field!(s, who, "content", hex(m.content().to_bytes().as_ref()));
+    field!(s, who, "content.len", m.content().len());
+    Ok(())
+}
+
+fn run_sigmsg(c: &SigMsgCase, obs: &mut Obs) -> CheckResult {
+    let signer = PoolSigner::with_first(c.ee_key as usize, c.rng);
+    let key = signer.key(c.ta_key as usize);
+    obs.nontrivial_if(c.content.len() >= 128);
+    obs.label(if c.content.len() >= 128 { "content>=128" } else { "content<128" });
+    let built = match no_panic("SignedMessage::create", || SignedMessage::create(Bytes::from(c.content.clone()), c.window.validity()?, &key, &signer).map_err(|e| Fail::new(format!("signing failed: {}", e))))? {
+        Ok(b) => b,
+        Err(e) => return Err(e),
+    };
+    let der = no_panic("SignedMessage::to_captured", || built.to_captured().into_bytes().to_vec())?;
+    let decoded = match no_panic("SignedMessage::decode", || SignedMessage::decode(der.as_slice(), true))? {
+        Ok(d) => d,
+        Err(e) => return Err(Fail::sig("c05:sigmsg:decode", format!("built signed message does not decode: {}", e))),
+    };
+    let now = c.window.eval()?;
+    if let Err(e) = no_panic("SignedMessage::validate_at", || decoded.validate_at(&signer.info(c.ta_key as usize), now))? {
+        return Err(Fail::sig("c05:sigmsg:validate", format!("built signed message does not validate under the issuing key: {}", e)));
+    }
+    ensure_bytes("sigmsg", "reencode", &captured(decoded.encode_ref()), &der)?;
+    // relaxed decoding of the same (DER) bytes gives the same object (it cannot be re-encoded in
+    // DER mode: bcder refuses to write BER-mode captures, so only the accessors are compared)
+    let relaxed = match no_panic("SignedMessage::decode relaxed", || SignedMessage::decode(der.as_slice(), false))? {
+        Ok(d) => d,
+        Err(e) => return Err(Fail::sig("c05:sigmsg:decode", format!("built signed message does not decode in relaxed mode: {}", e))),
+    };
+    ensure_sig!(relaxed.content().to_bytes() == decoded.content().to_bytes() && relaxed.content_type() == decoded.content_type(),
+        "c05:sigmsg:twin:relaxed", "relaxed and strict decoding disagree");
+    let mut sb = Snap::new();
+    snap_sigmsg(&mut sb, "built", &built)?;
+    let mut sd = Snap::new();
+    snap_sigmsg(&mut sd, "decoded", &decoded)?;
+    compare_snaps("sigmsg", &sb, &sd)?;
+    ensure_sig!(decoded.content().to_bytes().as_ref() == c.content.as_slice(), "c05:sigmsg:entries", "decoded content differs from what was signed");
+    Ok(())
+}
+
+//------------ sub-check: fixtures (objects without a builder) ---------------------------
+
+#[derive(Clone, Debug, Serialize, Deserialize)]
+pub struct Fixture {
+    pub idx: u64,
+}
+
+const ROUTER_CSR: &[u8] = include_bytes!("/repo/test-data/ca/router-csr.der");
+const CA_CSR: &[u8] = include_bytes!("/repo/test-data/ca/drl-csr.der");
+
+fn run_fixture(f: &Fixture, obs: &mut Obs) -> CheckResult {
+    obs.nontrivial();
+    match f.idx {
+        0 => {
+            // the library has no builder for BGPsec CSRs: decode / encode twin of the shipped example
+            let d = BgpsecCsr::decode(ROUTER_CSR).map_err(|e| Fail::sig("c05:csr:decode", format!("router CSR example does not decode: {}", e)))?;
+            ensure_sig!(d.verify_signature().is_ok(), "c05:csr:validate", "router CSR example does not verify");
+            ensure_bytes("csr", "reencode", d.to_captured().as_slice(), ROUTER_CSR)?;
+            let mut s = Snap::new();
+            snap_key(&mut s, "decoded", "public_key", d.public_key())?;
+            field!(s, "decoded", "eku", d.attributes().extended_key_usage().map(|e| e.inspect_router().is_ok()));
+            Ok(())
+        }
+        _ => {
+            let d = RpkiCaCsr::decode(CA_CSR).map_err(|e| Fail::sig("c05:csr:decode", format!("CA CSR example does not decode: {}", e)))?;
+            ensure_sig!(d.verify_signature().is_ok(), "c05:csr:validate", "CA CSR example does not verify");
+            ensure_bytes("csr", "reencode", d.to_captured().as_slice(), CA_CSR)
+        }
+    }
+}
 
 pub fn property() -> Property {
-    Property { id: "C05", rule: "", assumptions: vec![], subs: vec![] }
+    Property {
+        id: "C05",
+        rule: RULE,
+        assumptions: vec![
+            "inputs conform to the object profiles: whole-second times in years 1..9999, thisUpdate <= nextUpdate, notBefore <= notAfter, ROA max-length within [length, family max], non-empty duplicate-free provider sets without the customer AS, unique RFC 9286 manifest file names, range blocks with min <= max",
+            "AsBlocks::asn_count is not called on sets holding all 2^32 ASNs (finding F6 is decided by C03/C04)",
+            "SignedMessage::create reads the clock for the signing time and CRL number; no verdict depends on them",
+            "Roa::process / Aspa::process read the clock and are only exercised for validity windows covering 2000-01-01..2200-01-01",
+            "the library has no builder for BGPsec CSRs; that kind is represented by the shipped example file only",
+        ],
+        subs: vec![
+            PropSub { name: "cert", strategy: cert_strategy, cases: |t| t.pick(16_000, 500_000), run: run_cert,
+                floors: &[("cert-ta", 0.08), ("cert-ca", 0.15), ("cert-ee", 0.15), ("cert-router", 0.08), ("blocks>=2", 0.3), ("inherit", 0.1), ("generalized-time", 0.2), ("utc-time", 0.2)] }.boxed(),
+            PropSub { name: "crl", strategy: crl_strategy, cases: |t| t.pick(6_000, 150_000), run: run_crl,
+                floors: &[("revoked-0", 0.05), ("revoked-2..7", 0.3), ("revoked-8..300", 0.05)] }.boxed(),
+            PropSub { name: "manifest", strategy: mft_strategy, cases: |t| t.pick(6_000, 150_000), run: run_mft,
+                floors: &[("files-0", 0.05), ("files-2..7", 0.3), ("files-8..40", 0.05)] }.boxed(),
+            PropSub { name: "roa", strategy: roa_strategy, cases: |t| t.pick(8_000, 200_000), run: run_roa,
+                floors: &[("prefixes>=2", 0.4), ("both-families", 0.2), ("processed", 0.15)] }.boxed(),
+            PropSub { name: "aspa", strategy: aspa_strategy, cases: |t| t.pick(5_000, 100_000), run: run_aspa,
+                floors: &[("providers-1", 0.1), ("providers-2..9", 0.25), ("providers-10..129", 0.08), ("providers-130..", 0.03), ("processed", 0.15)] }.boxed(),
+            PropSub { name: "csr", strategy: csr_strategy, cases: |t| t.pick(4_000, 80_000), run: run_csr,
+                floors: &[("repo-dir", 0.2), ("repo-no-trailing-slash", 0.15), ("notify", 0.2)] }.boxed(),
+            PropSub { name: "idcert", strategy: idcert_strategy, cases: |t| t.pick(4_000, 80_000), run: run_idcert,
+                floors: &[("idcert-ta", 0.2), ("idcert-ee", 0.2)] }.boxed(),
+            PropSub { name: "sigmsg", strategy: sigmsg_strategy, cases: |t| t.pick(3_000, 60_000), run: run_sigmsg,
+                floors: &[("content>=128", 0.2), ("content<128", 0.2)] }.boxed(),
+            EnumSub { name: "fixtures", count: |_, _| 2, make: |_, _, idx| Fixture { idx }, run: run_fixture, exhaustive: false }.boxed(),
+        ],
+    }
 }
